@@ -1085,6 +1085,22 @@ def canon_block(block, fn, counts):
                     and len(ra[0].left.args) == 1 and _simple_arg(ra[0].left.args[0]):
                 L, rev = ra[0].left.args[0], True
             first = st.body[0]
+            if L is not None and not isinstance(L, ast.Constant):
+                # the index is only ever used to read L[i]: iterate over the elements
+                ltxt0 = ast.unparse(L)
+                reads = [n for b in st.body for n in ast.walk(b) if isinstance(n, ast.Subscript) and isinstance(n.ctx, ast.Load) and ast.unparse(n.value) == ltxt0
+                         and isinstance(n.slice, ast.Name) and n.slice.id == st.target.id]
+                i_all = sum(1 for b in st.body for n in ast.walk(b) if isinstance(n, ast.Name) and n.id == st.target.id)
+                l_all = sum(1 for b in st.body for n in ast.walk(b) if isinstance(n, (ast.Name, ast.Attribute)) and ast.unparse(n) == ltxt0)
+                later0 = any(isinstance(n, ast.Name) and n.id == st.target.id and isinstance(n.ctx, ast.Load) for b in block[i + 1:] for n in ast.walk(b))
+                if reads and not (isinstance(first, ast.Assign) and len(reads) == 1 and first.value is reads[0]) and i_all == len(reads) and l_all == len(reads) and not later0 \
+                        and not any(isinstance(n, ast.Name) and n.id == "_e" for n in ast.walk(fn)):
+                    for r_ in reads:
+                        _replace_node(st, r_, loc(ast.Name(id="_e", ctx=ast.Load()), r_))
+                    st.target = loc(ast.Name(id="_e", ctx=ast.Store()), st.target)
+                    st.iter = loc(ast.Call(func=ast.Name(id="reversed", ctx=ast.Load()), args=[L], keywords=[]), st.iter) if rev else L
+                    counts["index-loop->direct"] = counts.get("index-loop->direct", 0) + 1
+                    continue
             if L is not None and not isinstance(L, ast.Constant) and isinstance(first, ast.Assign) and len(first.targets) == 1 and isinstance(first.value, ast.Subscript) \
                     and ast.unparse(first.value.value) == ast.unparse(L) and isinstance(first.value.slice, ast.Name) and first.value.slice.id == st.target.id and len(st.body) >= 2:
                 i_uses = sum(1 for b in st.body for n in ast.walk(b) if isinstance(n, ast.Name) and n.id == st.target.id)
